@@ -74,6 +74,16 @@ class WireManagerBase(abc.ABC):
             wire_descriptions = [str(wire) for wire in self.wires]
             raise InconsistentGradingsError(f"Inconsistent counts on wires {wire_descriptions} ({counts})")
 
+        # the same edge in a neighbouring block must carry the same count
+        # (two chopped blocks can demand different counts on a shared edge)
+        for wire in self.wires:
+            for coincident in wire.coincidents:
+                if coincident.grading.count != wire.grading.count:
+                    raise InconsistentGradingsError(
+                        f"Inconsistent counts on coincident wires {wire} ({wire.grading.count}) "
+                        f"and {coincident} ({coincident.grading.count})"
+                    )
+
 
 class WireChopManager(WireManagerBase):
     """Responsible for conversion of user-specified Chops
